@@ -220,3 +220,11 @@ CHECKS["C16"] = {
     "level_note": "faults are addressed by (direction, type, occurrence index); 'within budget' is decided per protocol step (RetryCount+1 transmission attempts each), the reading under which a retry protocol can satisfy the property at all",
     "design_ref": "3/C16",
 }
+
+CHECKS["C26"] = {
+    "level": "exploration",
+    "technique": "runtime monitoring: generated API programs run by the real client library against the real gateway session and a conforming broker model in one virtual-time world; sequential effect model + delivery oracle over the recorded trace and callback events",
+    "level_text": "About 1500 (quick) random legal API programs of 5-30 calls, with third-party broker messages (single and bursts on unregistered topics under wildcards) and repeated sleep cycles with traffic during sleep, are executed lock-step by the two real implementations together. The oracle compares what the broker saw with the calls (CONNECT fields, publishes, filters, DISCONNECT) and requires every message the broker sent to reach a handler of a matching filter exactly once (QoS 1: at least once).",
+    "level_note": "lock-step execution (each call returns before the next starts); programs are legal by the library's documentation (Publish only on registered/short/predefined topics; after Sleep only Sleep/Connect/Disconnect)",
+    "design_ref": "3/C26",
+}
